@@ -40,7 +40,8 @@ RULE = ('a case = (T, v) with a history of 12..30 codec calls (ber/cer/der/nativ
 ASSUMPTIONS = ['thread schedules are only sampled (CPython has no race detector for Python-level state); switch interval '
                '1e-6 s, plus a LINE-event yield-injection run', 'snapshots read objects through public non-instantiating '
                'accessors only', 'calls inside zones of pinned encoder findings are compared with themselves (isolated run), '
-               'not with the reference']
+               'not with the reference', 'interleaved streaming decoders read non-seekable doubles only up to '
+               'io.DEFAULT_BUFFER_SIZE octets (beyond it the CachingStreamWrapper finding pinned under C11 applies)']
 KEY_FEATURES = ('arm', 'call')
 
 ENCODERS = {'ber': ber_encoder, 'cer': cer_encoder, 'der': der_encoder}
@@ -386,7 +387,10 @@ def arm_interleave(res, rng, bts):
         except Exception:
             continue
         exp = [U.canon(bt.T, bt.v)] * 2
-        stream = S.RawSched(data) if rng.random() < 0.5 else S.SeekableSched(data)
+        # non-seekable doubles only below the wrapper's cache-drop threshold: beyond it the pinned
+        # KF-C11-wrapper-renumbering finding decides the outcome (C11's matter), not the interleaving
+        raw_ok = len(data) <= io.DEFAULT_BUFFER_SIZE
+        stream = S.RawSched(data) if raw_ok and rng.random() < 0.5 else S.SeekableSched(data)
         it = iter(ber_decoder.StreamingDecoder(stream, asn1Spec=bt.schema))
         decs.append({'bt': bt, 'stream': stream, 'it': it, 'out': [], 'exp': exp, 'done': False, 'data': data})
     if len(decs) < 2:
